@@ -629,7 +629,21 @@ func c17Suite(r *Result, rng *rand.Rand, tier string) {
 	for w := 0; w < nw; w++ {
 		<-done
 	}
-	for i, c := range cases {
+	// judged first: the probes (so that, when a listed entry has been marked fixed and the defect is back, the
+	// stored VIOLATION replays include the former witness itself), then every other case in generation order
+	judgeOrder := make([]int, 0, len(cases))
+	for i := range cases {
+		if _, probe := probeAt[i]; probe {
+			judgeOrder = append(judgeOrder, i)
+		}
+	}
+	for i := range cases {
+		if _, probe := probeAt[i]; !probe {
+			judgeOrder = append(judgeOrder, i)
+		}
+	}
+	for _, i := range judgeOrder {
+		c := cases[i]
 		obs := res[i]
 		if skip[i] {
 			r.H("outcome", "model-predicts-nontermination(not run)")
